@@ -114,6 +114,9 @@ def make_problem(case0):
                 self.v_log.append((key, v, o))
                 cs = list(costs_of(self.v_case, v)[0])
             if o == "o":
+                if (key + n) % 3 == 1:
+                    import numpy as np
+                    return np.array(cs)      # an objective may hand its costs back as an ndarray: they are stored as returned
                 return cs
             if o in TRANSIENT and getattr(self, "v_parallel", False):
                 # parallel batch: a failing attempt takes a moment, so that the attempts of designs handled by different
@@ -303,7 +306,7 @@ def drive(case):
     objs = []
     for ind in problem.v_objs:
         objs.append({"vec": [float(x) for x in ind.vector], "state": STATE.get(ind.state.name, "?"),
-                     "costs": None if not isinstance(ind.costs, list) else list(ind.costs),
+                     "costs": None if not hasattr(ind.costs, "__len__") else [float(c) if isinstance(c, (int, float)) or hasattr(c, "dtype") else c for c in ind.costs],
                      "signed": list(ind.costs_signed), "prec": ind.features.get("precision")})
     obs = {"results": results, "cmds": cmds, "log": list(problem.v_log), "scalar_io": scalar_io,
            "failed": [[float(x) for x in f.vector] for f in problem.failed],
